@@ -19,9 +19,11 @@ type c06Point struct {
 	T   int `json:"t_s"`
 	V   int `json:"v"`
 	Opt int `json:"opt"` // -1: field absent
+	Gap bool `json:"gap_after,omitempty"` // the writer pauses 2 virtual seconds after this point (longer than the idle barrier)
 }
 
 type c06Group struct {
+	C      string // extra tag c (star mode): "" = the points of this group do not carry it
 	A, B   string
 	M      string
 	WFloat bool // field w is a float in this group and an integer in the others
@@ -56,6 +58,8 @@ var c06Nodes = []string{
 	"|window().period(3s).every(3s)\n    |mean('w')",
 	"|cumulativeSum('w')",
 	"|difference('w')",
+	"|barrier().idle(1500ms).delete(TRUE)\n    |stateCount(lambda: \"v\" >= 0)",
+	"|barrier().idle(1500ms).delete(TRUE)\n    |eval(lambda: count()).as('c').keep()",
 }
 
 func lpEscape(s string) string {
@@ -65,7 +69,7 @@ func lpEscape(s string) string {
 
 func c06Gen(c *Ctx) *c06Scenario {
 	g := c.G
-	sc := &c06Scenario{GroupBy: []string{"a", "a,b"}[g.Intn(2)], ByM: g.Chance(1, 4)}
+	sc := &c06Scenario{GroupBy: []string{"a", "a,b", "a", "a,b", "*"}[g.Intn(5)], ByM: g.Chance(1, 4)}
 	n := g.Range(1, 3)
 	hasAlert := false
 	for i := 0; i < n; i++ {
@@ -89,9 +93,13 @@ func c06Gen(c *Ctx) *c06Scenario {
 		if sc.ByM && g.Bool() {
 			gr.M = "m2"
 		}
+		if sc.GroupBy == "*" && len(sc.Groups) > 0 {
+			// series with different tag key sets: the same a and b, with and without (and with different values of) a third tag
+			gr.A, gr.B, gr.C = sc.Groups[0].A, sc.Groups[0].B, []string{"0", "1", "2"}[len(sc.Groups)-1]
+		}
 		// distinct group-by tag values (and measurement when grouping by it)
-		key := gr.A
-		if sc.GroupBy == "a,b" {
+		key := gr.A + "\x00c" + gr.C
+		if sc.GroupBy == "a,b" || sc.GroupBy == "*" {
 			key += "\x00" + gr.B
 		}
 		if sc.ByM {
@@ -109,7 +117,7 @@ func c06Gen(c *Ctx) *c06Scenario {
 		t := g.Intn(3)
 		for j := 0; j < np; j++ {
 			t += g.Range(1, 2)
-			p := c06Point{T: t, V: g.Intn(9), Opt: -1}
+			p := c06Point{T: t, V: g.Intn(9), Opt: -1, Gap: g.Chance(1, 5)}
 			if g.Chance(2, 3) {
 				p.Opt = g.Intn(5)
 			}
@@ -122,9 +130,17 @@ func c06Gen(c *Ctx) *c06Scenario {
 	if sc.GroupBy == "a,b" {
 		gb = "'a', 'b'"
 	}
-	fmt.Fprintf(&sb, "stream\n    |from().groupBy(%s)", gb)
-	if sc.ByM {
-		sb.WriteString(".groupByMeasurement()")
+	if sc.GroupBy == "*" {
+		// a groupBy node of its own, grouping by every tag a point carries
+		sb.WriteString("stream\n    |from()\n    |groupBy(*)")
+		if sc.ByM {
+			sb.WriteString(".byMeasurement()")
+		}
+	} else {
+		fmt.Fprintf(&sb, "stream\n    |from().groupBy(%s)", gb)
+		if sc.ByM {
+			sb.WriteString(".groupByMeasurement()")
+		}
 	}
 	sb.WriteString("\n")
 	for _, nd := range sc.Chain {
@@ -179,9 +195,16 @@ func c06Run(c *Ctx, sc *c06Scenario, only int) (map[int][]string, Verdict) {
 					if p.Opt >= 0 {
 						fields += fmt.Sprintf(",opt=%di", p.Opt)
 					}
-					line := fmt.Sprintf("%s,a=%s,b=%s %s %d\n", gr.M, lpEscape(gr.A), lpEscape(gr.B), fields, int64(p.T)*int64(time.Second))
+					extra := ""
+					if gr.C != "" {
+						extra = ",c=" + gr.C
+					}
+					line := fmt.Sprintf("%s,a=%s,b=%s%s %s %d\n", gr.M, lpEscape(gr.A), lpEscape(gr.B), extra, fields, int64(p.T)*int64(time.Second))
 					if code := d.WriteLine("db", "rp", line); code != 204 {
 						verdict = Fail("harness/setup", "write rejected %d: %s", code, line)
+					}
+					if p.Gap {
+						time.Sleep(2 * time.Second)
 					}
 				}
 			}(gi, gr)
@@ -217,7 +240,7 @@ func c06Run(c *Ctx, sc *c06Scenario, only int) (map[int][]string, Verdict) {
 		// attribute the output to an input group through the tag values it carries (never through GroupID strings)
 		gi := -1
 		for i, gr := range sc.Groups {
-			if tags["a"] == gr.A && (sc.GroupBy != "a,b" || tags["b"] == gr.B) && (!sc.ByM || name == gr.M) {
+			if tags["a"] == gr.A && (sc.GroupBy == "a" || tags["b"] == gr.B) && (sc.GroupBy != "*" || tags["c"] == gr.C) && (!sc.ByM || name == gr.M) {
 				gi = i
 			}
 		}
@@ -371,14 +394,17 @@ func runC06(c *Ctx) Verdict {
 
 // c06Crafted reports whether two of the scenario's groups differ in tag values yet serialise to the same "k=v,k=v" string.
 func c06Crafted(sc *c06Scenario) bool {
-	if sc.GroupBy != "a,b" {
+	if sc.GroupBy == "a" {
 		return false
 	}
 	seen := map[string]bool{}
 	for _, gr := range sc.Groups {
-		k := gr.M + "\n" + "a=" + gr.A + ",b=" + gr.B
-		if !sc.ByM {
-			k = "a=" + gr.A + ",b=" + gr.B
+		k := "a=" + gr.A + ",b=" + gr.B
+		if sc.GroupBy == "*" && gr.C != "" {
+			k += ",c=" + gr.C
+		}
+		if sc.ByM {
+			k = gr.M + "\n" + k
 		}
 		if seen[k] {
 			return true
@@ -392,7 +418,7 @@ func init() {
 	Register(&Prop{
 		ID:  "C06",
 		Run: runC06,
-		Rule: "case = from().groupBy('a') or ('a','b') [+groupByMeasurement] followed by 1-3 nodes from 14 grouping-aware node forms (where, eval with the stateful functions sigma/count/spread, stateCount, stateDuration, derivative, changeDetect, sample, window+sum, alert with stateChangesOnly, predicates and evals over a field that is present in only some points, default, and window+sum/mean, cumulativeSum, difference over a field that is a float in some groups and an integer in others) over 2-4 groups whose tag values contain ',', '=', spaces and prefixes of one another (including pairs that serialise to the same 'k=v,k=v' string); run A feeds all groups with one concurrent writer each, runs B_g feed group g alone, every run under its own seeded schedule and sync.Pool behaviour; " +
+		Rule: "case = from().groupBy('a') or ('a','b') [+groupByMeasurement], or a groupBy(*) node over series that share a and b and differ in whether (and with which value) they carry a third tag, followed by 1-3 nodes from 14 grouping-aware node forms (where, eval with the stateful functions sigma/count/spread, stateCount, stateDuration, derivative, changeDetect, sample, window+sum, alert with stateChangesOnly, an idle barrier that deletes a silent group (writers pause longer than the idle time after a fifth of their points) in front of stateCount / count(), predicates and evals over a field that is present in only some points, default, and window+sum/mean, cumulativeSum, difference over a field that is a float in some groups and an integer in others) over 2-4 groups whose tag values contain ',', '=', spaces and prefixes of one another (including pairs that serialise to the same 'k=v,k=v' string); run A feeds all groups with one concurrent writer each, runs B_g feed group g alone, every run under its own seeded schedule and sync.Pool behaviour; " +
 			"one case in eight instead rewrites the group-by tag after the groupBy (default().tag) for points written with and without the tag by two concurrent writers and requires one per-group counter (count(), stateCount, cumulativeSum) over their union; " +
 			"non-trivial = some group produced output; distinct = distinct (scenario, interleaving signatures) tuples",
 		Real:        []string{"FromNode/groupBy, edge.GroupedConsumer, models.ToGroupID", "WhereNode, EvalNode + tick/stateful (Expression.CopyReset, ScopePool), StateTracking nodes, DerivativeNode, ChangeDetectNode, SampleNode, WindowNode + InfluxQLNode, AlertNode, DefaultNode", "TaskMaster, httpd write endpoint"},
